@@ -1053,3 +1053,36 @@ package smtp
 //@   ensures @C20 first-shutdown-closes-every-listener-whatever-the-others-return: !old(chclosed(s.done)) && old(len(s.done)) == 0 ==> (forall i :: 0 <= i && i < len(s.listeners) ==> s.listeners[i].lclosed)
 //@   loop 1:
 //@     invariant @C20 forall j :: 0 <= j && j <= rangeindex ==> s.listeners[j].lclosed
+
+// ---------------------------------------------------------------------------------------
+// Decoders of the DSN parameter values (C11, C14, C19). The outer functions hand the work to the regexp
+// engine (trusted: `assumes`), their callbacks are under contract: what the engine hands a callback is a
+// match of the expression (requires = assumption about regexp), what the callback makes of it is proved.
+// ---------------------------------------------------------------------------------------
+
+//@ contract decodeXtext(val) (s, err)
+//@   prop C11 C14 C19
+//@   modifies *newcells error
+//@   assumes the-regexp-engine-replaces-every-match-by-what-the-callback-returns-and-nothing-else: (err == nil) == xtextDecOK(val) && (err == nil ==> s == xtextDec(val))
+//@   ensures @C11 a-failed-decoding-yields-nothing: err != nil ==> s == ""
+
+//@ contract decodeXtext$1(match) (r)
+//@   prop C11 C14 C19
+//@   requires what-the-regexp-engine-hands-over-is-a-match-of-the-expression: len(match) >= 1 && len(match) <= 3 && match[0] == 43 && (forall i :: 1 <= i && i < len(match) ==> isHexU(match[i]))
+//@   modifies replaceErr
+//@   ensures @C11,C14 a-hexchar-of-rfc-3461-is-the-7-bit-octet-it-names: len(match) == 3 && hexv(match[1]) * 16 + hexv(match[2]) <= 127 ==> r == runestr(hexv(match[1]) * 16 + hexv(match[2])) && replaceErr == old(replaceErr)
+//@   ensures @C11 anything-else-is-an-error: !(len(match) == 3 && hexv(match[1]) * 16 + hexv(match[2]) <= 127) ==> replaceErr != nil && r == ""
+
+//@ contract decodeUTF8AddrXtext(val) (s, err)
+//@   prop C11 C14 C19
+//@   modifies *newcells error
+//@   assumes the-regexp-engine-replaces-every-match-by-what-the-callback-returns-and-nothing-else: (err == nil) == u8xDecOK(val) && (err == nil ==> s == u8xDec(val))
+//@   ensures @C11 a-failed-decoding-yields-nothing: err != nil ==> s == ""
+
+//@ contract decodeUTF8AddrXtext$1(match) (r)
+//@   prop C11 C14 C19
+//@   requires what-the-regexp-engine-hands-over-is-a-match-of-the-expression: len(match) == 1 || (len(match) >= 5 && match[0] == 92 && match[1] == 120 && match[2] == 123 && match[len(match) - 1] == 125)
+//@   modifies replaceErr
+//@   ensures @C11 a-single-octet-match-is-a-disallowed-character: len(match) == 1 ==> replaceErr != nil && r == ""
+//@   ensures @C11,C14 an-embedded-character-of-rfc-6533-is-the-code-point-it-names: len(match) > 1 && puOK(match[3:len(match) - 1], 16, 21) && validHexpoint(len(match) - 4, puVal(match[3:len(match) - 1], 16)) ==> r == runestr(puVal(match[3:len(match) - 1], 16)) && replaceErr == old(replaceErr)
+//@   ensures @C11 any-other-hexpoint-is-an-error: len(match) > 1 && !(puOK(match[3:len(match) - 1], 16, 21) && validHexpoint(len(match) - 4, puVal(match[3:len(match) - 1], 16))) ==> replaceErr != nil && r == ""
